@@ -202,7 +202,19 @@ func addSubtree(t Tree, r *Route, next int, h Handler) (Leaf, error) {
 	}
 	t.setSubtrees(subtrees)
 
-	return addNextSegment(subtree, r, next+1, h)
+	leaf, err := addNextSegment(subtree, r, next+1, h)
+	if err != nil {
+		// Remove the new subtree so a failed route leaves nothing behind.
+		subtrees = t.getSubtrees()
+		for j, st := range subtrees {
+			if st == subtree {
+				t.setSubtrees(append(subtrees[:j:j], subtrees[j+1:]...))
+				break
+			}
+		}
+		return nil, err
+	}
+	return leaf, nil
 }
 
 // addNextSegment adds next segment of the route to the tree.
